@@ -58,11 +58,18 @@ def classes():
         class C17U(xo.UnionRef):
             _reftypes = (C17S, C17D)
 
-        _cls.update(S=C17S, D=C17D, A=xo.Float64[:], U=C17U)
+        # a hybrid (python-dressed) class: its objects are passed to kernels as they are, and move() relocates them while the
+        # python object stays the same
+        class C17H(xo.HybridClass):
+            _xofields = {"a": xo.Int64, "b": xo.Float64, "w": xo.Float64[:]}
+
+        _cls.update(S=C17S, D=C17D, A=xo.Float64[:], U=C17U, H=C17H._XoStruct)
+        _hyb["H"] = C17H
     return _cls
 
 
 _cls = {}
+_hyb = {}
 
 
 def source_and_kernels():
@@ -97,6 +104,11 @@ def source_and_kernels():
     ks["read_D"] = xo.Kernel(args=[xo.Arg(c["D"], name="obj")], ret=xo.Arg(xo.Int64))
     src.append("/*gpukern*/ double read_A(%s obj){ return %s_len(obj) ? %s_get(obj, %s_len(obj) - 1) : -1.0; }" % ((c["A"]._c_type,) * 4))
     ks["read_A"] = xo.Kernel(args=[xo.Arg(c["A"], name="obj")], ret=xo.Arg(xo.Float64))
+    hn = c["H"]._c_type
+    src.append("/*gpukern*/ double read_H(%s obj){ return %s_get_b(obj) + (double) %s_get_a(obj) + (%s_len_w(obj) ? 3 * %s_get_w(obj, %s_len_w(obj) - 1) : 0); }" % ((hn,) * 6))
+    ks["read_H"] = xo.Kernel(args=[xo.Arg(c["H"], name="obj")], ret=xo.Arg(xo.Float64))
+    src.append("/*gpukern*/ void bump_H(%s obj){ %s_set_a(obj, %s_get_a(obj) + 1); }" % ((hn,) * 3))
+    ks["bump_H"] = xo.Kernel(args=[xo.Arg(c["H"], name="obj")])
     src.append("/*gpukern*/ int64_t read_U(C17U obj){ return C17U_typeid(obj); }")
     ks["read_U"] = xo.Kernel(args=[xo.Arg(c["U"], name="obj")], ret=xo.Arg(xo.Int64))
     return "\n".join(src), ks
@@ -268,7 +280,7 @@ def run_scalars(omp, res, seed):
 # history system
 
 
-NEW = [("S", True), ("S", False), ("D", True), ("D", False), ("A", False), ("U", True)]
+NEW = [("S", True), ("S", False), ("D", True), ("D", False), ("A", False), ("U", True), ("H", True)]
 
 
 class World:
@@ -276,6 +288,8 @@ class World:
         self.ctx = context(omp)
         self.buf = place.traced(kind, 8, context=self.ctx, default_alignment=8)
         self.buf.allocate(3, align=False)  # nothing starts at offset 0
+        self.other = place.traced(kind, 64, context=self.ctx, default_alignment=8)  # (hybrid objects can be moved there and back)
+        self.other.allocate(5, align=False)
         self.objs = []  # [kind, handle, model, live]
         self.n = 0
 
@@ -283,8 +297,14 @@ class World:
         ev = [("new", k, al) for k, al in NEW] if sum(1 for o in self.objs if o[3]) < 4 else []
         ev.append(("grow",))
         for i, o in enumerate(self.objs):
-            if o[3]:
+            if o[3] and o[0] != "H":
                 ev.append(("free", i))
+            if o[3] and o[0] == "H":
+                # the same python object at another place: of the same buffer (no growth needed: the storage stays) / of
+                # another buffer; and written by a kernel
+                ev.append(("move", i, "same"))
+                ev.append(("move", i, "other"))
+                ev.append(("bump", i))
         return ev
 
     def apply(self, ev):
@@ -303,6 +323,9 @@ class World:
             elif k == "A":
                 m = [float(n + i) + 0.25 for i in range(1 + n % 4)]
                 h = c["A"](m, **kw)
+            elif k == "H":
+                m = dict(a=200 + n, b=n + 0.75, w=[float(n + i) for i in range(n % 3)])
+                h = _hyb["H"](_buffer=self.buf, **m)
             else:
                 tgt = [o for o in self.objs if o[3] and o[0] in ("S", "D")]
                 m = self.objs.index(tgt[-1]) if tgt else None
@@ -314,6 +337,15 @@ class World:
             while self.buf.capacity == cap and k < 64:
                 off = self.buf.allocate(max(cap, 8))
                 k += 1
+        elif ev[0] == "move":
+            o = self.objs[ev[1]]
+            here = o[1]._buffer
+            dest = here if ev[2] == "same" else (self.other if here is self.buf else self.buf)
+            o[1].move(_buffer=dest)
+        elif ev[0] == "bump":
+            o = self.objs[ev[1]]
+            self.ctx.kernels.bump_H(obj=o[1])
+            o[2]["a"] += 1
         else:
             o = self.objs[ev[1]]
             sz = o[1]._size if getattr(o[1], "_size", None) is not None else o[1]._get_size()
@@ -324,21 +356,30 @@ class World:
                     p[3] = False
 
     def key(self):
-        return hashlib.sha1(place.whole(self.buf) + repr([(o[0], int(o[1]._offset), o[3]) for o in self.objs]).encode() + repr(sorted((c.start, c.end) for c in self.buf.chunks)).encode()).digest()
+        return hashlib.sha1(place.whole(self.buf) + repr([(o[0], int(o[1]._offset), o[3], o[1]._buffer is self.buf) for o in self.objs]).encode() + place.whole(self.other) + repr(sorted((c.start, c.end) for c in self.buf.chunks)).encode()).digest()
 
 
 def check_world(w, v, res, hist):
     K = w.ctx.kernels
-    base = base_of(w.buf)
     for i, (k, h, m, live) in enumerate(w.objs):
         if not live:
             continue
+        base = base_of(h._buffer)
         res.transitions += 2
         res.events["object-pointer"] += 1
         try:
+            if k == "H":
+                # a hybrid object reads in python what the model says (the kernel's writes included), and the bare struct
+                # it dresses is passed like the object itself
+                if (int(h.a), float(h.b), [float(x) for x in h.w]) != (m["a"], m["b"], m["w"]):
+                    v.bad("C17.object-pointer", "hybrid-object-differs-in-python", "object %d: python reads %r, expected %r" % (i, (int(h.a), float(h.b), list(h.w)), m), kind=k, history=hist)
+                    continue
+                ax = K.addr_H(obj=h._xobject)
+                if int(ax) != base + int(h._offset):
+                    v.bad("C17.object-pointer", "not-current-location", "struct dressed by object %d (H): kernel received %#x, expected %#x" % (i, int(ax), base + int(h._offset)), kind=k, history=hist)
             if k != "U":
                 # the same object passed as a view rebuilt from (buffer, offset)
-                hv = type(h)._from_buffer(h._buffer, h._offset)
+                hv = (classes()["H"] if k == "H" else type(h))._from_buffer(h._buffer, h._offset)
                 av = getattr(K, "addr_" + k)(obj=hv)
                 if int(av) != base + int(h._offset):
                     v.bad("C17.object-pointer", "view-not-current-location", "view of object %d (%s): kernel received %#x, expected %#x" % (i, k, int(av), base + int(h._offset)), kind=k, history=hist)
@@ -353,6 +394,8 @@ def check_world(w, v, res, hist):
                 want = 1000 * len(m["v"]) + m["k"] + 7 * m["v"][-1]
             elif k == "A":
                 want = m[-1]
+            elif k == "H":
+                want = m["b"] + m["a"] + (3 * m["w"][-1] if m["w"] else 0)
             else:
                 want = -1 if m is None else ["S", "D"].index(w.objs[m][0])
             if r != want:
@@ -371,7 +414,7 @@ def touch_world(w):
         if live:
             try:
                 a = getattr(K, "addr_" + k)(obj=h)
-                if int(a) == base_of(w.buf) + int(h._offset):  # never dereference a pointer that is already known to be wrong
+                if int(a) == base_of(h._buffer) + int(h._offset):  # never dereference a pointer that is already known to be wrong
                     getattr(K, "read_" + k)(obj=h)
             except Exception:
                 pass  # judged (and reported) by check_world on the state where it happens
